@@ -223,6 +223,63 @@ def routing(ctx, origin, chain, final, reconnect=False, sentinel=False):
     return z3.And(*conds)
 
 
+def refused_reconnect(ctx, final='returns'):
+    """version negotiation: the status query succeeds, the follow-up
+    connect() made by the built-in reaction is refused.  The error is routed
+    to the handlers, NO socket stays open, the thread ends, and the same
+    object can connect again."""
+    from minecraft.networking.connection import Connection, ConnectionContext
+    from . import c15
+    pv = 757
+    cx = ConnectionContext(protocol_version=pv)
+    calls, servers = [], []
+    raises = ctx.bool('handler_raises')
+
+    def factory(wld, sock):
+        if sock.index == 0:
+            s = c15.StatusServer(wld, sock, cx, {
+                'version': {'name': 'x', 'protocol': pv}})
+        else:
+            s = c11.PlayServer(wld, sock, cx, [], None, None)
+        servers.append(s)
+        return s
+    with World(ctx, factory, refuse=[1]) as wld:
+        def h(exc, info):
+            calls.append(exc)
+            if raises:
+                raise Other('from handler')
+        fh = {'returns': lambda e, i: calls.append(('final', e)),
+              'false': False}[final]
+        conn = Connection('host', 25565, username='u',
+                          allowed_versions=[pv, 340], handle_exception=fh)
+        wld.conn = conn
+        conn.register_exception_handler(h, OSError)
+        conn.connect()
+        ran = wld.run(max_threads=4)
+        conds = [z3.BoolVal(len(ran) == 1 and not ran[0]['quiescent']),
+                 z3.BoolVal(len(calls) >= 1 and
+                            isinstance(calls[0], ConnectionRefusedError)),
+                 z3.BoolVal(len(wld.sockets) == 2),
+                 z3.BoolVal(all(s.closed for s in wld.sockets)),
+                 z3.BoolVal(conn.networking_thread is None and
+                            conn.new_networking_thread is None),
+                 z3.BoolVal(isinstance(conn.exception,
+                                       Other if bool(raises) else
+                                       ConnectionRefusedError))]
+        # the same object connects again (nothing refused any more)
+        wld.refuse.clear()
+        try:
+            conn.connect()
+            again = wld.run(max_threads=6)
+            conds.append(z3.BoolVal(len(wld.sockets) >= 3 and
+                                    again[-1]['quiescent']))
+        except Exception as e:
+            ctx.notes['reconnect_error'] = repr(e)
+            conds.append(z3.BoolVal(False))
+    note_key(ctx, 'C14:refused_reconnect:%s' % final)
+    return z3.And(*conds)
+
+
 def instances(tier, seed):
     out = []
     rnd = random.Random(seed * 131 + 3)
@@ -252,6 +309,10 @@ def instances(tier, seed):
              'final': fin, 'reconnect': rec}, W=96, budget_s=1800,
             max_decisions=100000,
             note=' '.join('%s%s' % (f, '^' if e else '') for f, e in chain)))
+    for fin in ('returns', 'false'):
+        out.append(Instance('refused_reconnect:%s' % fin, 'refused_reconnect',
+                            {'final': fin}, W=96, budget_s=900,
+                            max_decisions=100000))
     out.append(Instance('sentinel:routing', 'routing',
                         {'origin': 'listener',
                          'chain': [['Base', False]], 'final': 'none',
